@@ -39,6 +39,7 @@ func verifRangeCorpus() []verifRangeCase {
 		"<<-EOT\n    foo\n  bar ${a}\n  EOT", "<<-EOT\n\u3000\u3000foo\n\u3000\u3000bar\n\u3000\u3000EOT", "<<-EOT\n\t\u00a0é${a}\n\t\u00a0x\n\tEOT",
 		"\"é${a}ü\"", "[\"日本\", a]",
 		"l[i] ? a : b", "t[*].ok ? 1 : 0", "a.b[c] == \"x\" ? 1 : 2", "l.*.x ? a : b", "(a)[0] ? 1 : 2", "f(a)[0] + 1", "a[0].b[1] * 2", "!l[i]", "-t[*].n[0]",
+		"f(a).b.c", "(x).y.z", "[1, 2][0][1]", "xs[*].id.name", "f(1).x.y + 1", "{a = 1}.a.b", "\"s\".x.y", "a.b.c.d[0].e",
 	}
 	var out []verifRangeCase
 	for _, e := range exprs {
